@@ -44,6 +44,9 @@ type Requester struct {
 	HoldNum, HoldDen int
 	MaxHolds         int
 	Holds            int
+	// HoldBurstMax > 1 makes a hold last 1..HoldBurstMax cycles.
+	HoldBurstMax int
+	holdLeft     int
 	// RetrievePerCycle bounds how many incoming messages are taken per cycle (0 = all).
 	RetrievePerCycle int
 	// SendPerCycle bounds how many script items go out per cycle (0 = 1).
@@ -84,10 +87,17 @@ func (r *Requester) Tick() bool {
 	now := r.freq.Cycle(r.CurrentTime())
 
 	hold := false
-	if !r.Quiet && r.Holds < r.MaxHolds && r.Port.PeekIncoming() != nil &&
+	if r.holdLeft > 0 && !r.Quiet {
+		r.holdLeft--
+		hold = true
+		progress = true
+	} else if !r.Quiet && r.Holds < r.MaxHolds && r.Port.PeekIncoming() != nil &&
 		r.ch.Bool(r.HoldNum, r.HoldDen, "req.hold?") {
 		hold = true
 		r.Holds++
+		if r.HoldBurstMax > 1 {
+			r.holdLeft = r.ch.Intn(r.HoldBurstMax, "req.holdburst")
+		}
 		progress = true // come back next cycle
 	}
 	if !hold {
